@@ -101,7 +101,7 @@ CHECKS = {
  'C15': dict(cat='proof', sec='DESIGN.md §6 C15',
    text='Every decider loop of the Gallina models is for_upto(limit, body) with a limit-free body; the generic theorem C15_for_upto_mono '
         '(an answer produced within n iterations is produced unchanged for every m >= n) gives C15_quick_mono, C15_rec_mono, C15_bw_mono '
-        '(same Refuted step number), C15_seg_mono and C15_cps_mono (a closed-set proof found below radius r is found below every larger radius), C15_prover_mono (the rule-accelerated run_prover loop) and the order-free forms C15_for_upto_agree / C15_quick_agree / C15_rec_agree / C15_bw_halt_agree (under ANY two limits two settled answers are the same answer). That the REAL loop bodies do not read the limit is what '
+        '(same Refuted step number), C15_seg_mono and C15_cps_mono (a closed-set proof found below radius r is found below every larger radius), C15_prover_mono (the rule-accelerated run_prover loop) and the order-free forms C15_for_upto_agree / C15_quick_agree / C15_rec_agree / C15_bw_{halt,blank,spin}_agree / C15_seg_agree (under ANY two limits two settled answers are the same answer). That the REAL loop bodies do not read the limit is what '
         'the tie checks: the implementation is run at pairs of limits l1 < l2 (12 decider families incl. run_prover; random tables, named machines and leaves of the real tree generator, where the per-window CPS answers '
         'are not monotone; radii up to 12) and the relation "equal or the smaller answered limit-reached" is '
         'checked directly on its answers, and the same cases go through the extracted models.',
